@@ -61,6 +61,7 @@ def run_one(check, scn: dict) -> dict:
         "xdigest": digest(out.xobs) if out.xobs is not None else None,
         "stats": dict(out.stats),
         "shape": out.shape,
+        "shapes": sorted(set(out.shapes))[:64] if out.shapes else None,
         "nt": bool(out.nontrivial),
     }
     if os.environ.get("DSIM_DUMP_OBS"):
